@@ -443,4 +443,157 @@ theorem off_policy_probability_per_interaction_example :
   set_option synthInstance.maxSize 4000 in
   decide +kernel
 
+/-! ## Phase 4: every mode the constructor accepts, reward targets, record-field set
+
+`ConfigX` ranges over learn ∈ {on,off,ips,dr,dm,None} × eval ∈ {on,ips,dr,dm,None} × any record list; `evaluateX vw` is
+`evaluate` of the real `SequentialCB` with (`vw = true`) or without (`vw = false`) the optional package vowpalwabbit. -/
+
+/-- on the modes that need no optional package the all-modes model IS the model theorems 1–37 are about (whether or not
+the package is installed): same required keys, same `should_pred`, same reward targets, same outcome -/
+theorem evaluateX_conservative (vw : Bool) (c : ConfigX) (c0 : Config) (L : Learner σ V) (bs : Option Nat)
+    (env : List (Dict (Fld V R))) (s : σ) (h : c.base = some c0) :
+    evaluateX vw c L bs env s = .done (evaluate c0 L bs env s) ∧
+    requiredX c L.hasScore = required c0 L.hasScore ∧ shouldPredX c L.hasScore = shouldPred c0 L.hasScore ∧
+    evalTargetX c = evalTarget c0 ∧
+    opeFilters c = (if learnIps c0 then [(OpeType.ips, "learn_rewards")] else [])
+          ++ (if evalIpsOwn c0 then [(OpeType.ips, "eval_rewards")] else []) :=
+  ⟨evaluateX_conservative' vw c c0 L bs env s h, requiredX_base' c c0 L.hasScore h⟩
+
+/-- a 'dr'/'dm' mode without vowpalwabbit is never mis-evaluated: on a non-empty environment either validation rejects it
+(naming exactly the missing required keys), or — all required keys present — `OpeRewards(t, target)` of a package-needing
+type `t` that `_results` really constructs raises; in neither case is the learner used or a row produced -/
+theorem package_guard (c : ConfigX) (L : Learner σ V) (bs : Option Nat) (first : Dict (Fld V R))
+    (rest : List (Dict (Fld V R))) (s : σ) (hb : c.base = none) :
+    (∃ keys, keys ≠ [] ∧ keys = (requiredX c L.hasScore).filter (fun k => !first.has k)
+        ∧ evaluateX false c L bs (first :: rest) s = .done (.rejected keys))
+    ∨ ((requiredX c L.hasScore).filter (fun k => !first.has k) = [] ∧
+        ∃ t tg, (t, tg) ∈ opeFilters c ∧ needsVw t = true ∧ evaluateX false c L bs (first :: rest) s = .packageMissing t tg) :=
+  package_guard' c L bs first rest s hb
+
+/-- which filter raises: the learn filter is constructed first (learn ∈ {dr, dm}: its own type, target `learn_rewards`) -/
+theorem package_learn_first (c : ConfigX) (h : c.learn = .dr ∨ c.learn = .dm) :
+    (opeFilters c).find? (fun tt => needsVw tt.1 && !false) = (learnType c.learn).map (fun t => (t, "learn_rewards")) :=
+  package_learn_first' c h
+
+/-- … otherwise (learn ∉ {dr, dm}, eval ∈ {dr, dm}) it is the eval filter, with its own target `eval_rewards` -/
+theorem package_eval (c : ConfigX) (hl : c.learn ≠ .dr ∧ c.learn ≠ .dm) (h : c.eval = .dr ∨ c.eval = .dm) :
+    (opeFilters c).find? (fun tt => needsVw tt.1 && !false) = (evalType c.eval).map (fun t => (t, "eval_rewards")) :=
+  package_eval' c hl h
+
+/-- without the package only the package-free modes ever produce a result -/
+theorem result_only_package_free (c : ConfigX) (L : Learner σ V) (bs : Option Nat) (env : List (Dict (Fld V R))) (s : σ)
+    (r : σ × List (Call V) × List (Row V R)) (hne : env ≠ []) (h : evaluateX false c L bs env s = .done (.ok r)) :
+    ∃ c0, c.base = some c0 :=
+  result_only_package_free' c L bs env s r hne h
+
+/-- `_required` against the docstring, for EVERY mode: the code requires exactly the documented keys except
+'probability' in the ips modes (finding C06-F1); in particular for dr/dm modes the two agree -/
+theorem required_documented_all_modes (c : ConfigX) (hs : Bool) :
+    requiredSX c hs = requiredX c hs ++ (if c.learn == .ips || c.eval == .ips then ["probability"] else []) :=
+  requiredSX_eq' c hs
+
+/-- reward-target plumbing: the key the loop reads for learning (`learn_rewards`) is written by a filter of the learn
+type, the key it reads for evaluation (`eval_target`) by a filter of the eval type; no two filters write the same key;
+and the evaluation shares the learn target exactly when it has no type or the same type -/
+theorem targets_written (c : ConfigX) :
+    (∀ t, learnType c.learn = some t → (t, learnTargetX) ∈ opeFilters c)
+    ∧ (∀ t, evalType c.eval = some t → (t, evalTargetX c) ∈ opeFilters c)
+    ∧ ((opeFilters c).map (·.2)).Nodup
+    ∧ (evalTargetX c = learnTargetX ↔ (evalType c.eval = none ∨ evalType c.eval = learnType c.learn)) :=
+  targets_written' c
+
+/-- record-field set: the keys of a row are exactly `recordKeys` (a function of record options, mode, the first
+interaction's flags, whether a prediction is made, batching and whether the learner reported a probability), in that
+order, followed by the interaction's additional fields -/
+theorem record_fields_per_mode {c : Config} {fl : Flags} {sp b : Bool} {r : RowIn V R} {p : Option (Pred V)} {er : Option Rat}
+    {row : Row V R} (hx : mkRow c fl sp b r p er = .ok row) (hnd : nodupKeys (Dict.keys r.extras) = true)
+    (hfr : ∀ kv ∈ r.extras, kv.1 ∉ implicitExclude) :
+    Dict.keys row = recordKeys c fl sp b (p.bind (·.prob)).isSome ++ Dict.keys r.extras :=
+  mkRow_record_keys' hx hnd hfr
+
+/-- with `eval=None` no row ever has an action, reward or probability cell -/
+theorem no_eval_no_reward_cells (c : Config) (fl : Flags) (sp b hp : Bool) (h : c.eval = .none) :
+    "action" ∉ recordKeys c fl sp b hp ∧ "reward" ∉ recordKeys c fl sp b hp ∧ "probability" ∉ recordKeys c fl sp b hp :=
+  recordKeys_no_eval c fl sp b hp h
+
+/-! non-vacuity / witnesses -/
+example : ({ learn := .dr, eval := .dm, record := [] } : ConfigX).base = none := by decide
+example : ({ learn := .ips, eval := .on, record := ["reward"] } : ConfigX).base
+    = some { learn := .ips, eval := .on, record := ["reward"] } := by rfl
+
+/-- learn='dr', eval='dm' on a complete logged environment, no vowpalwabbit: the learn filter raises (replayed on the code) -/
+theorem package_guard_example :
+    evaluateX false { learn := .dr, eval := .dm, record := ["reward"] } cexL none
+      ([[("context", .val 1), ("actions", .acts [1, 2]), ("action", .val 2), ("reward", .num 3)]] : List (Dict (Fld Nat Unit))) 0
+      = .packageMissing .dr "learn_rewards"
+    ∧ evaluateX false { learn := .ips, eval := .dm, record := ["reward"] } cexL none
+      ([[("context", .val 1), ("actions", .acts [1, 2]), ("action", .val 2), ("reward", .num 3)]] : List (Dict (Fld Nat Unit))) 0
+      = .packageMissing .dm "eval_rewards"
+    ∧ evaluateX false { learn := .dr, eval := .none, record := [] } cexL none
+      ([[("context", .val 1), ("actions", .acts [1, 2])]] : List (Dict (Fld Nat Unit))) 0
+      = .done (.rejected ["action", "reward"]) := by
+  set_option synthInstance.maxSize 4000 in
+  decide +kernel
+
+/-! ## Translator tie: `Coba.Generated.C06.*` is regenerated from the source under test on every run (harness pre_build, Python `ast`) -/
+
+/-- the tables, key lists, dispatch chains and constants read off `coba/evaluators/sequential.py` and `OpeRewards.__init__`
+are the ones the model uses: `_IMPLICIT_EXCLUDE` (as a set), the three key lists of `_required`, the `learn_type`/`eval_type`
+chains, the types for which `OpeRewards` demands vowpalwabbit, the reward-target names, the accepted mode literals, the
+default `record` -/
+theorem source_tables_match :
+    ((Coba.Generated.C06.implicitExclude.all (implicitExclude.contains ·)) = true
+      ∧ (implicitExclude.all (Coba.Generated.C06.implicitExclude.contains ·)) = true)
+    ∧ (∀ c hs, requiredX c hs = requiredWith Coba.Generated.C06.requiredPred Coba.Generated.C06.requiredOff
+          Coba.Generated.C06.requiredRwds c hs)
+    ∧ (∀ l : LearnModeX, (learnType l).map OpeType.pyName = l.pyName.bind (fun n => Coba.Generated.C06.learnTypes.lookup n))
+    ∧ (∀ e : EvalModeX, (evalType e).map OpeType.pyName = e.pyName.bind (fun n => Coba.Generated.C06.evalTypes.lookup n))
+    ∧ (∀ t : OpeType, needsVw t = Coba.Generated.C06.vwTypes.contains t.pyName)
+    ∧ learnTargetX = Coba.Generated.C06.learnTarget
+    ∧ (∀ c, evalTargetX c = if evalOwnX c then Coba.Generated.C06.evalTargetOwn else Coba.Generated.C06.evalTargetShared)
+    ∧ (∀ c, ((opeFilters c).map (·.2)).all (Coba.Generated.C06.opeTargets.contains ·) = true)
+    ∧ (∀ l : LearnModeX, ∀ n, l.pyName = some n → Coba.Generated.C06.learnModes.contains n = true)
+    ∧ (Coba.Generated.C06.learnModes.all (fun n => [LearnModeX.on, .off, .ips, .dr, .dm].any (fun l => l.pyName == some n))) = true
+    ∧ (∀ e : EvalModeX, ∀ n, e.pyName = some n → Coba.Generated.C06.evalModes.contains n = true)
+    ∧ (Coba.Generated.C06.evalModes.all (fun n => [EvalModeX.on, .ips, .dr, .dm].any (fun e => e.pyName == some n))) = true
+    ∧ defaultRecord = Coba.Generated.C06.defaultRecord :=
+  source_tables_match'
+
+/-! ## Phase 4c: heterogeneous environments (interactions whose reserved keys differ from the first interaction's)
+
+`neededKeys c fl` lists, in program order, every key `Finalize`, the `OpeRewards('IPS')` filters and the loop body subscript
+in an interaction — a function of the mode and of the FIRST interaction's flags only; `missingOf c fl d` are those `d` lacks.
+Together with `later_reserved_key_ignored` (a reserved key outside `neededKeys` is never read) this is the full decision. -/
+
+/-- an interaction is processed only if it has every key the code subscripts: any key of `neededKeys` missing ⇒ no row, no
+result for it (in the code: `KeyError`) -/
+theorem interaction_processed_only_if_complete {c : Config} {fl : Flags} {d : Dict (Fld V R)} {r : RowIn V R}
+    (h : prep c fl d = .ok r) : missingOf c fl d = [] :=
+  prep_ok_has_needed' h
+
+/-- environment level, no well-formedness assumed: an un-batched evaluation that returns has met no interaction lacking a
+key of `neededKeys` (flags of the first interaction); contrapositive: one such interaction anywhere ⇒ the evaluation raises -/
+theorem hetero_evaluates_only_if (c : Config) (L : Learner σ V) (first : Dict (Fld V R)) (rest : List (Dict (Fld V R)))
+    (s : σ) (out : σ × List (Call V) × List (Row V R)) (h : evaluate c L none (first :: rest) s = .ok out) :
+    ∀ d ∈ first :: rest, missingOf c (mkFlags first) d = [] :=
+  hetero_evaluates_only_if' c L first rest s out h
+
+/-- witnesses (kernel-evaluated; replayed on the code as corpus cases): the second interaction lacks 'reward' under
+learn='off' ⇒ KeyError 'reward' after the first interaction was learned; the same environment under learn='on' (which
+does not read 'reward' … but the first interaction has it, so `has_reward` is set and the loop subscripts it) also raises;
+an interaction that GAINS 'context' is evaluated with context None -/
+theorem hetero_examples :
+    firstBad ({ learn := .off, eval := .none, record := [] } : Config)
+        (mkFlags ([("context", .val 1), ("action", .val 2), ("reward", .num 3)] : Dict (Fld Nat Unit)))
+        ([[("context", .val 1), ("action", .val 2), ("reward", .num 3)], [("context", .val 2), ("action", .val 3)]] : List (Dict (Fld Nat Unit)))
+      = some (1, ["reward"])
+    ∧ evaluate ({ learn := .off, eval := .none, record := [] } : Config) cexL none
+        ([[("context", .val 1), ("action", .val 2), ("reward", .num 3)], [("context", .val 2), ("action", .val 3)]] : List (Dict (Fld Nat Unit))) 0
+      = .crashed (.keyError "reward")
+    ∧ evaluate ({ learn := .off, eval := .none, record := [] } : Config) cexL none
+        ([[("action", .val 2), ("reward", .num 3)], [("context", .val 2), ("action", .val 3), ("reward", .num 1)]] : List (Dict (Fld Nat Unit))) 0
+      = .ok (20, [.learn none (some 2) (some 3) none [], .learn none (some 3) (some 1) none []], []) := by
+  set_option synthInstance.maxSize 4000 in
+  decide +kernel
+
 end Coba.C06
